@@ -115,6 +115,7 @@ class Ctx:
         gen = dist = dep = None
         violated = None
         err_lines = []
+        cov_actions = {}
         casef = open(cases_to, "a") if cases_to else None
         prefix = '<<"CASE", '
         with open(logp, "w") as lf:
@@ -144,6 +145,11 @@ class Ctx:
                     violated = m.group(1) or "temporal"
                 if line.startswith("Error:") or "Exception" in line:
                     err_lines.append(line.rstrip())
+                if coverage:
+                    # "<Action line 85, col 3 to line 106, col 19 of module M>: distinct:generated"
+                    m = re.match(r"<(\w+) line \d+, col \d+ to line \d+, col \d+ of module (\w+)>: (\d+):(\d+)", line)
+                    if m:
+                        cov_actions[m.group(2) + "!" + m.group(1)] = max(cov_actions.get(m.group(2) + "!" + m.group(1), 0), int(m.group(4)))
             rc = p.wait()
         if casef:
             casef.close()
@@ -152,7 +158,13 @@ class Ctx:
         info = dict(name=name, generated=gen or 0, distinct=dist or 0, depth=dep, cases=ncases,
                     rc=rc, violated=violated, wall_s=round(time.time() - t0, 2), log=logp,
                     simulate=simulate)
-        self.tlc_runs.append({k: info[k] for k in ("name", "generated", "distinct", "depth", "cases", "wall_s", "simulate")})
+        run_rec = {k: info[k] for k in ("name", "generated", "distinct", "depth", "cases", "wall_s", "simulate")}
+        if coverage and cov_actions:
+            # vacuity guard: actions never taken in this configuration are recorded in the evidence
+            run_rec["actions_taken"] = {k: v for k, v in sorted(cov_actions.items())}
+            run_rec["actions_never_taken"] = sorted(k for k, v in cov_actions.items() if v == 0)
+            info["actions_never_taken"] = run_rec["actions_never_taken"]
+        self.tlc_runs.append(run_rec)
         if rc == 124:
             raise Broken("TLC timed out after %ss on %s (log %s)" % (timeout, name, logp))
         if expect_violation:
